@@ -161,6 +161,8 @@ _PF_TEMPLATES = {
     'kwdefault': 'def w(a, *args, target=DEFAULT, **kwargs):\n    return target(*args, **kwargs)\n',
     # callee bound by keyword: keywords do not resolve callee parameters
     'kwbound': 'def w(a, *args, target=DEFAULT, **kwargs):\n    return target(*args, **kwargs)\n',
+    # callee bound by keyword to the wrapper's FIRST parameter (no unbound parameter before it): keywords still do not resolve
+    'kwleading': 'def w(target, *args, **kwargs):\n    return target(*args, **kwargs)\n',
     # callee is a module global: discovery needs no bound argument at all, and must still happen
     'globnone': 'def w(a, *args, **kwargs):\n    return callee(*args, **kwargs)\n',
     'globkw': 'def w(a, *args, **kwargs):\n    return callee(*args, **kwargs)\n',
@@ -183,6 +185,8 @@ def rt_partialfwd(req):
         src += ['p = functools.partial(w, callee%s)' % ''.join(', %d' % (700 + i) for i in range(extra))]
     elif tmpl == 'kwdefault':
         src += ['p = functools.partial(w, 1%s)' % ''.join(', %d' % (700 + i) for i in range(extra))]
+    elif tmpl == 'kwleading':
+        src += ['p = functools.partial(w, target=callee)']
     elif tmpl == 'globnone':
         src += ['p = functools.partial(w)']
     elif tmpl == 'globkw':
